@@ -587,6 +587,9 @@ package workflow
 //@ fields executor immutable: logger config stepRegistry callableFunctions callableFunctionSchemas
 //@ func (*executor).loadSchema
 //@   requires e != nil && stepKind != nil
+//@   site call LoadSchema#1 assert [a-provider-only-loads-step-data-that-passed-its-own-schema] called(Unserialize, 1) && callres(Unserialize, 1, 1) == nil && \
+//@        callarg(Unserialize, 1, 0) == callres(schema.NewObjectSchema, 1, 0) && typeis(callarg(Unserialize, 1, 1), map[any]any) && callarg(Unserialize, 1, 1).(map[any]any) == stepDataMap && called(schema.NewObjectSchema, 1) && called(ProviderSchema, 1) && \
+//@        callarg(schema.NewObjectSchema, 1, 1) == properties && properties == callres(ProviderSchema, 1, 0)
 //@   ensures [runnable-step-or-error] (result1 == nil) != (result == nil)
 //@ func (*executor).getRunData
 //@   requires e != nil && stepKind != nil && runnableStep != nil
